@@ -634,22 +634,81 @@ func (c *Ctx) assume(cond *Term) {
 }
 
 // concretize forks over the feasible values of an integer term within [lo,hi].
+// A decision is recorded as (value - lo), so replay needs no enumeration.
 func (c *Ctx) concretize(t *Term, signed bool, lo, hi int64, what string) int64 {
 	if v, ok := c.constInt(t, signed); ok {
 		return v
 	}
-	if hi-lo > 64 {
-		c.unsupported("concretize %s over range [%d,%d]", what, lo, hi)
-	}
-	n := int(hi-lo) + 1
 	w := t.S.W
-	i := c.choose(n, func(i int) *Term {
+	eq := func(v int64) *Term {
 		if c.IntMode {
-			return Eq(t, IntConst64(lo+int64(i)))
+			return Eq(t, IntConst64(v))
 		}
-		return Eq(t, BVConst64(lo+int64(i), w))
-	})
-	return lo + int64(i)
+		return Eq(t, BVConst64(v, w))
+	}
+	if c.pos < len(c.prefix) {
+		i := c.prefix[c.pos]
+		c.pos++
+		c.trace = append(c.trace, i)
+		c.addPC(eq(lo + int64(i)))
+		if c.pos == len(c.prefix) {
+			c.model = c.itemModel
+		}
+		return lo + int64(i)
+	}
+	if hi-lo <= 64 {
+		n := int(hi-lo) + 1
+		i := c.choose(n, func(i int) *Term { return eq(lo + int64(i)) })
+		return lo + int64(i)
+	}
+	// large range: enumerate the feasible values with the solver (at most 64 of them)
+	c.decisions++
+	if c.decisions > c.Ex.MaxDecisions {
+		c.abort("unwind", "more than %d symbolic decisions on one path (unwinding bound)", c.Ex.MaxDecisions)
+	}
+	type alt struct {
+		v int64
+		m Model
+	}
+	var feas []alt
+	var inRange *Term
+	if c.IntMode {
+		inRange = And(ILe(IntConst64(lo), t), ILe(t, IntConst64(hi)))
+	} else {
+		inRange = And(BVSle(BVConst64(lo, w), t), BVSle(t, BVConst64(hi, w)))
+	}
+	excl := []*Term{inRange}
+	for len(feas) <= 64 {
+		r, m, _ := c.S.CheckPC(c.pc, excl, true)
+		c.st.FeasQueries++
+		if r != Sat || m == nil {
+			if r == Unknown {
+				c.unsupported("concretize %s: solver unknown while enumerating values", what)
+			}
+			break
+		}
+		val := Eval(t, m, map[*Term]*Term{})
+		if val == nil || !val.IsConst() {
+			c.unsupported("concretize %s: cannot evaluate the term under the model", what)
+		}
+		v, _ := c.constInt(val, signed)
+		feas = append(feas, alt{v, m})
+		excl = append(excl, Not(eq(v)))
+	}
+	if len(feas) == 0 {
+		c.abort("infeasible", "no feasible value for %s", what)
+	}
+	if len(feas) > 64 {
+		c.unsupported("concretize %s: more than 64 feasible values in [%d,%d]", what, lo, hi)
+	}
+	for _, a := range feas[1:] {
+		p := append(append([]int{}, c.trace...), int(a.v-lo))
+		c.Ex.push(p, a.m)
+	}
+	c.trace = append(c.trace, int(feas[0].v-lo))
+	c.addPC(eq(feas[0].v))
+	c.model = feas[0].m
+	return feas[0].v
 }
 
 // ---------------------------------------------------------------------------
